@@ -127,6 +127,9 @@ fn known_value(v: &GVal, canonical_ty: &Ty, ser_ty: &Ty) -> GVal {
         }
         (GVal::Attributes(_), _, _) => normalise_attributes(v),
         (GVal::MaterialColors(_), _, _) => v.normalise_material_colors(),
+        // both writers accept the narrower number type for a 64-bit property and store it widened
+        (GVal::Int32(i), _, VariantType::Int64) => GVal::Int64(*i as i64),
+        (GVal::Float32(b), _, VariantType::Float64) => GVal::Float64((f32::from_bits(*b) as f64).to_bits()),
         _ => v.clone(),
     }
 }
